@@ -230,6 +230,131 @@ pub fn shape_mutations(e: &TypeEntry, rng: &mut impl RngCore, nrandom: usize, nf
     out
 }
 
+/// Structural mutations of a value's JSON form: every array node gets elements appended (a copy of
+/// its last element: n+1, n+2, 2n), removed (n-1, empty); objects lose a field or gain a duplicate.
+pub fn json_mutations(e: &TypeEntry) -> Vec<Mutation> {
+    use serde_json::Value;
+    let Ok(root) = serde_json::from_slice::<Value>(&e.json) else { return vec![] };
+    // collect paths of array / object nodes
+    fn walk(v: &Value, path: &mut Vec<String>, out: &mut Vec<Vec<String>>) {
+        match v {
+            Value::Array(a) => {
+                out.push(path.clone());
+                // descend only into non-numeric children (byte arrays are leaves)
+                for (i, x) in a.iter().enumerate() {
+                    if !x.is_number() {
+                        path.push(i.to_string());
+                        walk(x, path, out);
+                        path.pop();
+                    }
+                }
+            }
+            Value::Object(o) => {
+                out.push(path.clone());
+                for (k, x) in o.iter() {
+                    path.push(k.clone());
+                    walk(x, path, out);
+                    path.pop();
+                }
+            }
+            _ => {}
+        }
+    }
+    fn at<'a>(v: &'a mut Value, path: &[String]) -> Option<&'a mut Value> {
+        let mut cur = v;
+        for p in path {
+            cur = match cur {
+                Value::Array(a) => a.get_mut(p.parse::<usize>().ok()?)?,
+                Value::Object(o) => o.get_mut(p)?,
+                _ => return None,
+            };
+        }
+        Some(cur)
+    }
+    let mut nodes = vec![];
+    walk(&root, &mut vec![], &mut nodes);
+    let mut out = vec![];
+    for path in nodes {
+        let pname = path.join("/");
+        let variants: &[&str] = &["n+1", "n+2", "2n", "n-1", "empty"];
+        for var in variants {
+            let mut v = root.clone();
+            let Some(node) = at(&mut v, &path) else { continue };
+            match node {
+                Value::Array(a) => {
+                    let last = a.last().cloned();
+                    match (*var, last) {
+                        ("n+1", Some(l)) => a.push(l),
+                        ("n+2", Some(l)) => {
+                            a.push(l.clone());
+                            a.push(l);
+                        }
+                        ("2n", Some(_)) => {
+                            let c = a.clone();
+                            a.extend(c);
+                        }
+                        ("n-1", Some(_)) => {
+                            let _ = a.pop();
+                        }
+                        ("empty", _) => a.clear(),
+                        _ => continue,
+                    }
+                }
+                Value::Object(o) => match *var {
+                    "n-1" => {
+                        let k = o.keys().next().cloned();
+                        if let Some(k) = k {
+                            let _ = o.remove(&k);
+                        }
+                    }
+                    "empty" => o.clear(),
+                    _ => continue,
+                },
+                _ => continue,
+            }
+            out.push(Mutation {
+                name: format!("json|{}|{}", pname, var),
+                bytes: serde_json::to_vec(&v).unwrap_or_default(),
+            });
+        }
+    }
+    out
+}
+
+/// Decode a JSON input under the same monitors as the binary decoders.
+pub fn monitored_json_decode(c: &mut Ctx, e: &TypeEntry, mname: &str, bytes: &[u8]) -> Option<bool> {
+    c.eval();
+    let base = alloc::reset();
+    let r = guard(|| (e.decode_json)(bytes));
+    let st = alloc::stats(base);
+    if alloc::enabled() && (st.largest > ALLOC_SINGLE_FACTOR * bytes.len() + ALLOC_SINGLE_SLACK || st.peak_live > (ALLOC_PEAK_FACTOR * bytes.len() + ALLOC_PEAK_SLACK) as i64) {
+        c.violation(
+            &format!("C16 over-allocation type={} mutation={}", e.name, mname),
+            json!({"type": e.name, "format": "json", "mutation": mname, "input_len": bytes.len(), "largest_single_request": st.largest, "peak_live": st.peak_live}),
+        );
+        return None;
+    }
+    match r {
+        Err(p) => {
+            c.count("panics", 1);
+            c.violation(
+                &format!("C16 decode-panic type={} mutation={} loc={}", e.name, mname, repo_rel(&p.location)),
+                json!({"type": e.name, "format": "json", "mutation": mname, "panic": p.message, "location": p.location,
+                       "input_head": String::from_utf8_lossy(&bytes[..bytes.len().min(200)])}),
+            );
+            None
+        }
+        Ok(Ok(())) => {
+            c.count("json_decoded_ok", 1);
+            Some(true)
+        }
+        Ok(Err(_)) => {
+            c.count("json_decoded_err", 1);
+            Some(false)
+        }
+    }
+}
+
 pub const ALLOC_SINGLE_FACTOR: usize = 16;
 pub const ALLOC_SINGLE_SLACK: usize = 1024 * 1024;
 pub const ALLOC_PEAK_FACTOR: usize = 32;
@@ -303,7 +428,7 @@ pub fn mutation_class(m: &str) -> String {
 }
 
 pub fn run(c: &mut Ctx) {
-    c.note("rule", json!("every Deserialize type of both crates and wrappers around the public element codecs; per honest encoding: every length prefix <- {0,n-1,n+1,n+1 with a valid extra element,n+2,2n,2^24,2^32,2^40 with 64 elements,2^60,2^64-1}, every atom <- invalid/boundary encodings and flag patterns, truncation at and inside every atom, extension, random strings, random tails, bit flips. One case = one decoded input; distinct = distinct (type, mutation name), random inputs by content."));
+    c.note("rule", json!("every Deserialize type of both crates and wrappers around the public element codecs; a second serde format (JSON, no size hints): every array node with elements appended / removed, objects with fields removed; per honest bincode encoding: every length prefix <- {0,n-1,n+1,n+1 with a valid extra element,n+2,2n,2^24,2^32,2^40 with 64 elements,2^60,2^64-1}, every atom <- invalid/boundary encodings and flag patterns, truncation at and inside every atom, extension, random strings, random tails, bit flips. One case = one decoded input; distinct = distinct (type, mutation name), random inputs by content."));
     let m = match types::default_merchant(c) {
         Ok(m) => m,
         Err(e) => return c.inconclusive(&e),
@@ -352,6 +477,27 @@ pub fn run(c: &mut Ctx) {
                     }
                 });
             }
+        }
+    }
+    // second serde format: JSON gives the visitors no size hint and no length prefix to trust
+    for e in &entries {
+        if e.json.len() > 60_000 {
+            continue; // range parameters / customer configuration: same codecs, covered by the smaller types
+        }
+        let name = format!("{}|json|honest", e.name);
+        c.case(&name, |c| {
+            c.distinct(&name);
+            if monitored_json_decode(c, e, "json|honest", &e.json) != Some(true) {
+                c.inconclusive(&format!("C16: honest JSON form of {} does not decode", e.name));
+            }
+        });
+        for mu in json_mutations(e) {
+            let name = format!("{}|{}", e.name, mu.name);
+            c.case(&name, |c| {
+                c.distinct(&name);
+                c.count("inputs_json", 1);
+                let _ = monitored_json_decode(c, e, &mu.name, &mu.bytes);
+            });
         }
     }
     if n_len_atoms == 0 {
